@@ -221,6 +221,46 @@ fn parse_match_nodes(mac: &syn::Macro) -> Value {
 struct FnScan {
     macros: Vec<Value>,
     rule_matches: Vec<Value>,
+    calls: Vec<String>,
+    rule_filters: Vec<Value>,
+}
+
+/// `Rule::X` paths mentioned in an expression that also mentions `as_rule`, with the comparison operator
+struct RuleCmp {
+    eq: Vec<String>,
+    ne: Vec<String>,
+}
+impl<'ast> Visit<'ast> for RuleCmp {
+    fn visit_expr_binary(&mut self, b: &'ast syn::ExprBinary) {
+        let l = quote_expr(&b.left);
+        let r = quote_expr(&b.right);
+        let (rule_side, other) = if l.replace(' ', "").starts_with("Rule::") { (l.clone(), r.clone()) } else { (r.clone(), l.clone()) };
+        if rule_side.replace(' ', "").starts_with("Rule::") && other.contains("as_rule") {
+            let name = rule_side.replace(' ', "")[6..].to_string();
+            match b.op {
+                syn::BinOp::Eq(_) => self.eq.push(name),
+                syn::BinOp::Ne(_) => self.ne.push(name),
+                _ => {}
+            }
+        }
+        syn::visit::visit_expr_binary(self, b);
+    }
+    fn visit_macro(&mut self, m: &'ast syn::Macro) {
+        let last = m.path.segments.last().map(|s| s.ident.to_string()).unwrap_or_default();
+        if last == "matches" {
+            let txt = ts_string(&m.tokens);
+            if txt.contains("as_rule") {
+                if let Some(pos) = txt.find(',') {
+                    for alt in txt[pos + 1..].split('|') {
+                        let a = alt.replace(' ', "");
+                        if a.starts_with("Rule::") {
+                            self.eq.push(a[6..].to_string());
+                        }
+                    }
+                }
+            }
+        }
+    }
 }
 impl<'ast> Visit<'ast> for FnScan {
     fn visit_macro(&mut self, m: &'ast syn::Macro) {
@@ -229,6 +269,31 @@ impl<'ast> Visit<'ast> for FnScan {
             self.macros.push(parse_match_nodes(m));
         }
         syn::visit::visit_macro(self, m);
+    }
+    fn visit_expr_call(&mut self, c: &'ast syn::ExprCall) {
+        if let syn::Expr::Path(p) = &*c.func {
+            self.calls.push(p.path.segments.iter().map(|s| s.ident.to_string()).collect::<Vec<_>>().join("::"));
+        }
+        syn::visit::visit_expr_call(self, c);
+    }
+    fn visit_expr_method_call(&mut self, c: &'ast syn::ExprMethodCall) {
+        let m = c.method.to_string();
+        if m == "filter" || m == "filter_map" || m == "retain" || m == "skip_while" || m == "take_while" {
+            let mut rc = RuleCmp { eq: Vec::new(), ne: Vec::new() };
+            for a in &c.args {
+                rc.visit_expr(a);
+            }
+            if !rc.eq.is_empty() || !rc.ne.is_empty() {
+                self.rule_filters.push(json!({"method": m, "eq": rc.eq, "ne": rc.ne}));
+            }
+        }
+        // functions passed by name (`.map(Self::transaction)`)
+        for a in &c.args {
+            if let syn::Expr::Path(p) = a {
+                self.calls.push(p.path.segments.iter().map(|s| s.ident.to_string()).collect::<Vec<_>>().join("::"));
+            }
+        }
+        syn::visit::visit_expr_method_call(self, c);
     }
     fn visit_expr_match(&mut self, m: &'ast syn::ExprMatch) {
         let mut arms: Vec<Value> = Vec::new();
@@ -282,7 +347,42 @@ fn rust_file_json(path: &str) -> Value {
         Err(e) => return json!({"file": path, "error": format!("syn: {e}")}),
     };
     let mut fns: Vec<Value> = Vec::new();
+    fn scan_fn(self_ty: &str, attrs: &[String], sig: &syn::Signature, block: &syn::Block) -> Value {
+        use syn::__private::ToTokens;
+        let mut sc = FnScan { macros: Vec::new(), rule_matches: Vec::new(), calls: Vec::new(), rule_filters: Vec::new() };
+        sc.visit_block(block);
+        let ret = match &sig.output {
+            syn::ReturnType::Default => String::new(),
+            syn::ReturnType::Type(_, t) => t.to_token_stream().to_string(),
+        };
+        // a body that is one tail expression (`fn zero() -> T { expr }`)
+        let tail = if block.stmts.len() == 1 {
+            match &block.stmts[0] {
+                syn::Stmt::Expr(e, None) => quote_expr(e),
+                _ => String::new(),
+            }
+        } else {
+            String::new()
+        };
+        json!({
+            "impl": self_ty,
+            "impl_attrs": attrs,
+            "name": sig.ident.to_string(),
+            "line": sig.ident.span().start().line,
+            "ret": ret,
+            "nargs": sig.inputs.len(),
+            "match_nodes": sc.macros,
+            "rule_matches": sc.rule_matches,
+            "calls": sc.calls,
+            "rule_filters": sc.rule_filters,
+            "tail": tail,
+            "body": block.to_token_stream().to_string(),
+        })
+    }
     for item in &file.items {
+        if let syn::Item::Fn(f) = item {
+            fns.push(scan_fn("", &[], &f.sig, &f.block));
+        }
         if let syn::Item::Impl(imp) = item {
             let self_ty = {
                 use syn::__private::ToTokens;
@@ -295,23 +395,7 @@ fn rust_file_json(path: &str) -> Value {
                 .collect();
             for ii in &imp.items {
                 if let syn::ImplItem::Fn(f) = ii {
-                    let mut sc = FnScan { macros: Vec::new(), rule_matches: Vec::new() };
-                    sc.visit_block(&f.block);
-                    use syn::__private::ToTokens;
-                    let ret = match &f.sig.output {
-                        syn::ReturnType::Default => String::new(),
-                        syn::ReturnType::Type(_, t) => t.to_token_stream().to_string(),
-                    };
-                    fns.push(json!({
-                        "impl": self_ty,
-                        "impl_attrs": attrs,
-                        "name": f.sig.ident.to_string(),
-                        "line": f.sig.ident.span().start().line,
-                        "ret": ret,
-                        "match_nodes": sc.macros,
-                        "rule_matches": sc.rule_matches,
-                        "body": f.block.to_token_stream().to_string(),
-                    }));
+                    fns.push(scan_fn(&self_ty, &attrs, &f.sig, &f.block));
                 }
             }
         }
